@@ -74,6 +74,11 @@ CHECKS = {
    text="Seven scenarios of 2-3 threads with 1-3 operations each, chosen to collide: at domain level (same channel, disjoint regions) back-fill write || delete spanning two domains; GC || delete splitting a domain that compaction moves; first/last-domain commits || delete; GC || write || read; at cesium level write || delete of an earlier range || read; writers on two index groups; write || delete || GC. All interleavings at mutex/rwmutex/atomic/waitgroup operations of cesium, x and alamos with at most 2 (thorough: 3) preemptions, sharded over 12 processes. Every execution is replayed from its recorded choices (identical trace and outcome required). Oracle: no deadlock, no panic, every operation succeeds, and the content read back in memory and after close+reopen equals the serial result of the same (commuting) operations. The data-race clause is a separate free-running go test -race pass over the same bodies.",
    note="testing/synctest bubble as quiescence detector; go1.26.8 runtime with determinism patches for select order, map iteration and runtime.rand (overlay generated by bin/mkrt.py); GOMAXPROCS=1; channel operations are not scheduling points (goroutines blocked on channels run when woken); un-instrumented libraries run eagerly; the -race pass is sampling by nature and only reports races whose accesses involve repository code; a time budget that is hit yields exhaustive:false.",
    design="3/C09"),
+ "C20": dict(level="exploration", engine="schedx",
+   technique="stateless schedule enumeration (DFS, iterative preemption bounding, three select-polling rotations) of writers, streamers and DB.Close on the real cesium relay under the schedx controlled scheduler; per-streamer order/duplicate/filter/authorisation/completeness oracle; deadlock = violation",
+   text="Four (thorough: five) scenarios: writer || re-subscribing streamer; two writers (one unauthorised on two of its three channels) || two streamers; a writer of 140-channel frames || two single-channel streamers; the two-writer/two-streamer scenario with streamers connected until the writers finish; thorough adds DB.Close as a thread. Every interleaving of the harness operations (open+ack, sync stream write, re-subscribe, disconnect, close) and of the lock/atomic operations below them with at most 2 (3) preemptions, for select rotations 0-2, sharded over 12 processes. Each streamer is drained by an always-ready consumer; delivered frames are decoded only after the execution ended. Oracle: no frame twice, per-writer order, only subscribed keys (monotone across a re-subscription), no series of a channel whose gate another writer held during the whole write, every frame written while the streamer was connected received (streamers disconnect after one second of fake time so in-flight frames can drain), and every operation returns (no deadlock).",
+   note="channel operations inside relay/confluence are not scheduling points (no channel instrumenter was built): interleavings are explored at harness-operation and lock-operation granularity; fake time (the 20 ms slow-consumer timeout fires only if the scheduler advances the clock); virtual channels; replay of an execution compares traces and clock-free outcomes.",
+   design="3/C20"),
 }
 NOT_YET = {}
 props = [json.loads(l) for l in open(os.path.join(HERE, "properties.jsonl"))]
